@@ -19,12 +19,15 @@ func c17(tier string) []*explore.Scenario {
 	if tier == "thorough" {
 		bound = 2
 	}
-	out = append(out, c17Spoof())
+	out = append(out, c17Spoof(), c17Hostile())
 	for _, role := range []string{"none", "stuck-writer", "stuck-writer-flood", "failing-reader", "failing-writer", "failing-both", "dial-error", "slow-dial"} {
 		out = append(out, c17BadPeer(role, bound))
 	}
 	for _, when := range []string{"before-old-fails", "after-old-fails"} {
 		out = append(out, c17Reattach(when, bound))
+	}
+	for _, traffic := range []int{0, 1, 2} {
+		out = append(out, c17DeadOnAttach(traffic, bound+3-traffic))
 	}
 	for step := 0; step <= 4; step++ {
 		out = append(out, c17Shutdown(step, bound))
@@ -95,6 +98,72 @@ func c17Spoof() *explore.Scenario {
 			}
 			if !v.ok && (delivered(t, "b", id) != 0 || delivered(t, "a", id) != 0) {
 				vsched.Fail(fam+"|spoof-forwarded", "an envelope with %s was forwarded", v.name)
+			}
+			if delivered(t, "b", 50) != 1 || delivered(t, "a", 51) != 1 {
+				vsched.Fail(fam+"|stopped-forwarding", "after an envelope with %s the proxy no longer forwards good traffic (a->b %d, b->a %d)", v.name, delivered(t, "b", 50), delivered(t, "a", 51))
+			}
+		},
+	}
+}
+
+// c17Hostile: envelopes from peer a whose source is right but whose other
+// fields are degenerate (the transports between in-process peers hand over
+// the very object, so "impossible on the wire" shapes such as an empty but
+// non-nil return route are possible). None may crash the proxy or stop it
+// forwarding; where the destination is unambiguous the envelope is delivered.
+func c17Hostile() *explore.Scenario {
+	fam := "C17/hostile-envelope"
+	return &explore.Scenario{
+		Name: "C17/hostile-envelope/shapes", Family: fam, Prop: "C17", Bound: 1,
+		Run: func() {
+			t, peers := c17Env(4)
+			t.DialErr["nowhere"] = errors.New("no route")
+			t.DialErr[""] = errors.New("no route")
+			vsched.Settle()
+			variants := []struct {
+				name string
+				mk   func() *env.Rpc
+				to   string // where it must arrive exactly once ("" = not judged)
+			}{
+				{"empty-nonnil-return-route", func() *env.Rpc { r := c17Msg(1, "a", "b"); r.Header.ProxyNext = []string{}; return r }, "b"},
+				{"return-route-of-one", func() *env.Rpc { r := c17Msg(2, "a", "nowhere"); r.Header.ProxyNext = []string{"b"}; return r }, "b"},
+				{"return-route-of-two", func() *env.Rpc { r := c17Msg(3, "a", "nowhere"); r.Header.ProxyNext = []string{"x", "b"}; return r }, "b"},
+				{"return-route-empty-name", func() *env.Rpc { r := c17Msg(4, "a", "b"); r.Header.ProxyNext = []string{""}; return r }, ""},
+				{"return-route-unknown", func() *env.Rpc { r := c17Msg(5, "a", "b"); r.Header.ProxyNext = []string{"nowhere"}; return r }, ""},
+				{"empty-destination", func() *env.Rpc { return c17Msg(6, "a", "") }, ""},
+				{"no-body", func() *env.Rpc { r := c17Msg(7, "a", "b"); r.Body = nil; return r }, "b"},
+				{"empty-nonnil-record", func() *env.Rpc { r := c17Msg(8, "a", "b"); r.Header.ProxyRecord = []string{}; return r }, "b"},
+				{"long-record", func() *env.Rpc {
+					r := c17Msg(9, "a", "b")
+					for i := 0; i < 40; i++ {
+						r.Header.ProxyRecord = append(r.Header.ProxyRecord, "p")
+					}
+					return r
+				}, "b"},
+				{"everything-at-once", func() *env.Rpc {
+					r := c17Msg(10, "a", "b")
+					r.Status = &goatorepo.ResponseStatus{Code: 1, Message: "x"}
+					r.Trailer = &goatorepo.Trailer{}
+					r.Reset_ = &goatorepo.Reset{Type: "RST_STREAM"}
+					return r
+				}, "b"},
+				{"to-self", func() *env.Rpc { return c17Msg(11, "a", "a") }, "a"},
+				{"id-zero", func() *env.Rpc { return c17Msg(0, "a", "b") }, ""},
+			}
+			v := variants[vsched.Choose(len(variants))]
+			vsched.Explore(true)
+			if err := peers["a"].A.Inject(v.mk()); err != nil {
+				vsched.Fail(fam+"|harness", "%v", err)
+				return
+			}
+			vsched.Quiesce()
+			peers["a"].A.Inject(c17Msg(50, "a", "b"))
+			peers["b"].A.Inject(c17Msg(51, "b", "a"))
+			vsched.Quiesce()
+			id := v.mk().GetId()
+			vsched.Obs("%s: delivered to b=%d a=%d follow-up=%d/%d", v.name, delivered(t, "b", id), delivered(t, "a", id), delivered(t, "b", 50), delivered(t, "a", 51))
+			if v.to != "" && delivered(t, v.to, id) != 1 {
+				vsched.Fail(fam+"|not-delivered", "an envelope with %s was delivered to %s %d times", v.name, v.to, delivered(t, v.to, id))
 			}
 			if delivered(t, "b", 50) != 1 || delivered(t, "a", 51) != 1 {
 				vsched.Fail(fam+"|stopped-forwarding", "after an envelope with %s the proxy no longer forwards good traffic (a->b %d, b->a %d)", v.name, delivered(t, "b", 50), delivered(t, "a", 51))
@@ -275,6 +344,58 @@ func c17Reattach(when string, bound int) *explore.Scenario {
 			}
 			if nd < 1 {
 				vsched.Fail(fam+"|no-disconnect-report", "the failed old connection of b was never reported")
+			}
+		},
+	}
+}
+
+// c17DeadOnAttach: a peer attaches with a connection that fails at once, while
+// `traffic` envelopes a->b keep the forwarding loop busy. The failure must be
+// reported once, and the name must not stay occupied by the dead connection:
+// a later envelope for c makes the proxy dial c, and traffic a->b is untouched.
+func c17DeadOnAttach(traffic, bound int) *explore.Scenario {
+	fam := "C17/dead-on-attach"
+	return &explore.Scenario{
+		Name: fmt.Sprintf("C17/dead-on-attach/traffic=%d", traffic), Family: fam, Prop: "C17", Bound: bound,
+		Run: func() {
+			t, peers := c17Env(4)
+			dead := env.NewPipe(t.Tap, env.PipeOpts{Name: "cdead", Cap: 4})
+			dead.B.ReadFailAfter = 0
+			dead.B.WriteFailAt = 0
+			live := env.NewPipe(t.Tap, env.PipeOpts{Name: "c", Cap: 4})
+			t.Extra["c"] = live
+			vsched.Settle()
+			vsched.Explore(true)
+			for i := 0; i < traffic; i++ {
+				peers["a"].A.Inject(c17Msg(uint64(60+i), "a", "b"))
+			}
+			vsched.Go("attach-dead", func() { t.Proxy.AddClient("c", dead.B) })
+			vsched.Quiesce()
+			for i := 0; i < traffic; i++ {
+				if n := delivered(t, "b", uint64(60+i)); n != 1 {
+					vsched.Fail(fam+"|bystander-traffic", "envelope %d a->b was delivered %d times while c attached with a dead connection", 60+i, n)
+				}
+			}
+			peers["a"].A.Inject(c17Msg(70, "a", "c"))
+			vsched.Quiesce()
+			n := 0
+			for _, e := range t.Tap.Events {
+				if e.Wire == "c" && e.Rpc.GetId() == 70 { // dialled peers have the proxy on their A side
+					n++
+				}
+			}
+			nd := countStr(t.Disconnects, "c")
+			vsched.Obs("traffic=%d: delivered to re-dialled c=%d dialed=%v disconnects=%v", traffic, n, t.Dialed, t.Disconnects)
+			if nd < 1 {
+				vsched.Fail(fam+"|no-disconnect-report", "c's connection failed at attach but was never reported")
+			}
+			if n != 1 {
+				vsched.Fail(fam+"|dead-connection-kept", "c attached with a connection that failed at once (reported %d times); a later envelope for c reached a fresh connection %d times (dialled %v): the dead connection still occupies the name", nd, n, t.Dialed)
+			}
+			peers["a"].A.Inject(c17Msg(71, "a", "b"))
+			vsched.Quiesce()
+			if n := delivered(t, "b", 71); n != 1 {
+				vsched.Fail(fam+"|bystander-traffic", "after c's failed attach an envelope a->b was delivered %d times", n)
 			}
 		},
 	}
